@@ -175,7 +175,9 @@ func (w *WaitGroup) Add(delta int) {
 	if v < 0 {
 		panic("vsync: negative WaitGroup counter")
 	}
-	if v == 0 {
+	if v == 0 && sched.Cur() != nil {
+		// only a harness thread wakes waiters (a foreign goroutine finishing at an arbitrary
+		// real time must not change the schedule; the waiter polls for it, see Wait)
 		sched.Wake(w)
 	}
 }
@@ -190,8 +192,10 @@ func (w *WaitGroup) Wait() {
 	spins := 0
 	for atomic.LoadInt64(&w.n) != 0 {
 		if sched.Cur() != nil && sched.OthersAlive() {
-			sched.Block(w, "WaitGroup.Wait")
-			continue
+			sched.BlockSoft(w, "WaitGroup.Wait")
+			if sched.OthersAlive() {
+				continue
+			}
 		}
 		runtime.Gosched()
 		spins++
